@@ -225,7 +225,7 @@ func IsKnown(prop, key string) (string, bool) {
 			continue
 		}
 		if k.Key == key || globMatch(k.Key, key) {
-			return k.What, true
+			return k.Key + " :: " + k.What, true
 		}
 	}
 	return "", false
@@ -262,16 +262,19 @@ func globMatch(pattern, key string) bool {
 // TB is the subset of testing.TB / rapid.T the package needs.
 type TB interface {
 	Fatalf(format string, args ...interface{})
+	Errorf(format string, args ...interface{})
 }
 
-// Violation reports that the oracle of unit rejected c. If key is an open known
+var softMode = map[string]bool{}
+
+// violation reports that the oracle of unit rejected c. If key is an open known
 // finding it is counted and false is returned (the caller carries on);
 // otherwise the failure is recorded for the replay file and t.Fatalf is called.
-func Violation(t TB, unit, key string, c interface{}, format string, args ...interface{}) bool {
+func violation(t TB, soft bool, unit, key string, c interface{}, format string, args ...interface{}) bool {
 	msg := fmt.Sprintf(format, args...)
 	if what, ok := IsKnown(property, key); ok {
 		mu.Lock()
-		knownHits[key+" :: "+what]++
+		knownHits[what]++
 		mu.Unlock()
 		return false
 	}
@@ -280,15 +283,21 @@ func Violation(t TB, unit, key string, c interface{}, format string, args ...int
 		raw, _ = json.Marshal(fmt.Sprintf("unmarshalable case: %v", err))
 	}
 	mu.Lock()
-	failures[unit+"\x00"+key] = &Failure{Property: property, Unit: unit, Key: key, Msg: msg, Case: raw}
+	if _, seen := failures[unit+"\x00"+key]; !seen || !soft {
+		failures[unit+"\x00"+key] = &Failure{Property: property, Unit: unit, Key: key, Msg: msg, Case: raw}
+	}
 	mu.Unlock()
-	if os.Getenv("VERIF_REPLAY") != "" {
-		// replay mode: the outcome is the test failure itself
-		t.Fatalf("[%s] %s: %s", unit, key, msg)
+	if soft {
+		t.Errorf("[%s] %s: %s", unit, key, msg)
 		return true
 	}
 	t.Fatalf("[%s] %s: %s", unit, key, msg)
 	return true
+}
+
+// Violation is violation that stops the test.
+func Violation(t TB, unit, key string, c interface{}, format string, args ...interface{}) bool {
+	return violation(t, false, unit, key, c, format, args...)
 }
 
 // Guard runs f and converts a panic into an error that carries the stack.
@@ -323,18 +332,25 @@ func Errf(key, format string, args ...interface{}) error {
 }
 
 // Report turns the verdict of an oracle function into bookkeeping: nil is
-// fine; a *CheckErr or a panic becomes a Violation.
-func Report(t TB, unit string, c interface{}, err error) {
+// fine; a *CheckErr or a panic becomes a Violation (the test stops).
+func Report(t TB, unit string, c interface{}, err error) { report(t, false, unit, c, err) }
+
+// ReportSoft is Report for enumerated grids: the failure is recorded (one replay
+// file per distinct key, the first case seen) and the test carries on so that
+// every distinct failure of the grid is seen in one run.
+func ReportSoft(t TB, unit string, c interface{}, err error) { report(t, true, unit, c, err) }
+
+func report(t TB, soft bool, unit string, c interface{}, err error) {
 	if err == nil {
 		return
 	}
 	switch e := err.(type) {
 	case *CheckErr:
-		Violation(t, unit, e.Key, c, "%s", e.Msg)
+		violation(t, soft, unit, e.Key, c, "%s", e.Msg)
 	case *PanicError:
-		Violation(t, unit, unit+"/panic", c, "%s", e.Error())
+		violation(t, soft, unit, unit+"/panic", c, "%s", e.Error())
 	default:
-		Violation(t, unit, unit+"/error", c, "%v", err)
+		violation(t, soft, unit, unit+"/error", c, "%v", err)
 	}
 }
 
